@@ -15,7 +15,7 @@ MSG   = `{"t":"append",…} | {"t":"chunk",…} | {"t":"snap",…} | {"t":"apply
 OUT   = `["send",dst,MSG] | ["cb",id,code] | ["addNode",n] | ["dropNode",n]`
 
 ops: `send` (one destination), `sendall`, `check`, `submit`, `recv_apply`, `recv_response`,
-`leader_changed`, `fappend`, `restore`, `reapply`, `chunks`, `fold`, `admin_remove`, `rounds`, `journalfold`, `capture`, `appendmsg` (the whole `append_entries` handler: `extra`, `from`, `term`, `commit`,
+`leader_changed`, `fappend`, `restore`, `reapply`, `chunks`, `fold`, `admin_remove`, `rounds`, `journalfold`, `capture`, `frun` (a list of `fappend` messages delivered in order), `appendmsg` (the whole `append_entries` handler: `extra`, `from`, `term`, `commit`,
 `kind` = `{"regular":{prev,entries|chunk}}` | `{"snap": null | "notlast" | "broken" | {prevE,lastE,cluster}}`)
 (`send` takes `"match": null | n` = the destination's matchIndex, repair D62).
 -/
@@ -326,6 +326,30 @@ def handle (j : Json) : Except String Json := do
     match clusterAt s.self s.members s.log s.lastApplied with
     | none => return errJ .indexError
     | some c => return Json.mkObj [("cluster", nats (sortNats c))]
+  | "frun" =>
+    let cfg ← jConf (← fld j "conf")
+    let s ← jState (← fld j "state")
+    let msgs ← (← jArr (← fld j "msgs")).toList.mapM fun mj => do
+      let chunkJ := fldD mj "chunk"
+      let chunk ← if chunkJ.isNull then pure none else (do
+        let a ← jArr chunkJ
+        if a.size != 2 then throw "chunk: need 2 fields"
+        return some (← jLabel a[0]!, ← jSpans a[1]!))
+      let entJ := fldD mj "entries"
+      let es ← if entJ.isNull then pure [] else jEntries entJ
+      return ({ prev := ← jPrev (fldD mj "prev"), entries := es, chunk := chunk } : AppendMsg)
+    -- deliver in order; stop at the first exception (state as the failing handler left it)
+    let src ← jNat (← fld j "from")
+    let rec go2 (s : Node) (acc : List Out) : List AppendMsg → Node × List Out × Option Err
+      | [] => (s, acc, none)
+      | m :: rest =>
+        match followerAppend cfg s src m with
+        | (s1, .error e) => (s1, acc, some e)
+        | (s1, .ok o) => go2 s1 (acc ++ o) rest
+    let (s', o, e) := go2 s [] msgs
+    match e with
+    | some e => return Json.mkObj [("err", errStr e), ("out", outsJ o), ("state", stateJ s')]
+    | none => return Json.mkObj [("out", outsJ o), ("state", stateJ s')]
   | "appendmsg" =>
     let cfg ← jConf (← fld j "conf")
     let s ← jState (← fld j "state")
